@@ -27,7 +27,8 @@
             Lex!DocVerdict, which does not depend on the order
      lmut   single-point mutations of whole valid lines as TEXT (delete, empty,
             duplicate a field; truncate; append tab; replace / delete / insert a
-            character)                                     -- C07 input
+            character; a byte that is not text - Cat.lbytes: undecodable byte, NUL, lone
+            CR - in front of / behind every field)          -- C07 input
      lenum  every text of <= n symbols over a line-level alphabet (incl. tab)
                                                            -- C07 input
      hdr    header lines carrying ONE tag: every name of Cat.hdr.names (the predefined
@@ -46,6 +47,30 @@
             printed as indices <<"CH", doc, line, field, value text, setter, tail>>;
             the harness executes it at every validation level and records the result
             class of every call; TraceLex demands that each is an allowed outcome.
+     nest   GFA2 groups nested in each other under removal (C07: "identifiers to ... remove";
+            RecursionError and non-termination are named by the property).  The DOCUMENTS are
+            built here: kind (O / U) x 1..3 groups a, b, c where each lists the next x the
+            last one lists the first (a cycle; one group: it lists itself) or not (a chain:
+            deep nesting) x which groups also list a segment (none / the last / all) x an
+            outer set `U d a` depending on the nest or not x three arrival orders (as
+            listed; reversed = every reference is a forward reference; groups rotated and
+            the segments last).  On every line of every such document every tail of
+            Cat.nest.tails is run (remove by identifier, remove the instance, disconnect,
+            validate, write); printed as <<"CG", document, line, tail>>.
+     queue  documents whose first lines do NOT decide the version (valid L / C / P lines and
+            lines of unknown type, which wait in the queue), combined with one line that is
+            refused in some contexts (truncated, malformed field, duplicate of a queued
+            line, name clash with the deciding line, line of the other version, ...) and a
+            decider (S line of either version, H VN, a name clash, nothing = end of input)
+            in three arrangements (queued, refused, decider / refused first / refused
+            after the decision)                                   -- C07 input
+     long   over-long records: every field of every valid line (for a tag: its value) replaced
+            by a run of Cat.longs[r].n copies of one character between a prefix and a suffix
+            (digits alone: identifiers, positions, lengths, integer tags; digits + "M":
+            CIGAR length; + "$": last position; + "+": oriented identifier / list element;
+            "1," / "c," + digits: trace and array element; "[" digits "]": JSON number;
+            letters); printed run-length encoded as
+            <<"CX", text before, character, count, text after>>   -- C07 input
    The alphabets, catalogues and bounds are data (one JSON file written by
    harness/fam_lex.py and read here: a single source for TLC and for Python).
    Characters are printed as indices into Cat.chars, because TLC's output
@@ -67,6 +92,10 @@ Vars   == Cat.variants   \* [doc, op, k, f]
 Tmpl   == Cat.templates  \* [ver, dia, lines, slots: seq of [line, field, alts, ctx], orders, maxdev]
 Hdr    == Cat.hdr        \* [names, types, values, pre, suf]: sequences of texts
 Api    == Cat.api        \* [docs: seq of [ver, lines], values, nsetters, tails]
+Nest   == Cat.nest       \* [tails: seq of seq of operation names]
+Que    == Cat.queue      \* [q, bad, dec]: sequences of texts (dec may contain the empty text)
+Longs  == Cat.longs      \* seq of [pre, sym (one character), n, suf]: pre, n copies of sym, suf
+LBytes == Cat.lbytes     \* bytes that are not text (undecodable byte, NUL, lone CR): placed at field boundaries
 Layers == Rng(Cat.layers)
 
 CharIdx == [ch \in Rng(Chars) |-> CHOOSE k \in DOMAIN Chars : Chars[k] = ch]
@@ -145,6 +174,8 @@ LMutText(x) ==
     [] k = 6 -> Sub(t, p, LReps[r])
     [] k = 7 -> Del(t, p)
     [] k = 8 -> Ins(t, p, LReps[r])
+    [] k = 9 -> Join(Sub(f, p, <<LBytes[r]>> \o f[p]), "\t")      \* a non-text byte in front of field p
+    [] k = 10 -> Join(Sub(f, p, Append(f[p], LBytes[r])), "\t")   \* ... behind field p
 LEnumText(x) == Concat([k \in DOMAIN x.w |-> LAlph.syms[x.w[k]]])
 
 (* header lines with one tag: w = <<name, type, value, prefix, suffix>> *)
@@ -162,6 +193,42 @@ AValues(d, j, i, src) ==
   ELSE IF ARec(d, j) = {} THEN <<>>
   ELSE LET a == CHOOSE b \in ARec(d, j) : TRUE IN IF i <= NPos(a) THEN PosReps(a, i) ELSE <<>>
 HistValue(x) == AValues(x.a, x.w[1], x.w[2], x.w[3])[x.w[4]]
+
+(* nested groups: w = <<kind, n, closed, segments, outer, order>> then <<line, tail>> *)
+GNames == << <<"a">>, <<"b">>, <<"c">> >>
+GKinds == << <<"O">>, <<"U">> >>
+GSegs  == << << <<"S">>, <<"1">>, <<"1", "0">>, <<"*">> >>, << <<"S">>, <<"2">>, <<"1", "0">>, <<"*">> >> >>
+GItem(kind, name) == IF kind = 1 THEN name \o <<"+">> ELSE name
+GLine(kind, n, closed, sm, i) ==
+  LET nxt == IF i < n THEN <<GItem(kind, GNames[i + 1])>>
+             ELSE IF closed = 1 THEN <<GItem(kind, GNames[1])>> ELSE <<>>
+      sg  == IF sm = 2 \/ (sm = 1 /\ i = n)
+             THEN <<GItem(kind, IF i % 2 = 1 THEN <<"1">> ELSE <<"2">>)>> ELSE <<>> IN
+  <<GKinds[kind], GNames[i], Join(nxt \o sg, " ")>>
+Rot(sq) == IF Len(sq) <= 1 THEN sq ELSE Tail(sq) \o <<Head(sq)>>
+NestDoc(w) ==
+  LET kind == w[1]  n == w[2]  closed == w[3]  sm == w[4]  outer == w[5]  ord == w[6]
+      segs == IF sm = 0 THEN <<>> ELSE GSegs
+      grps == [i \in 1..n |-> GLine(kind, n, closed, sm, i)]
+      out  == IF outer = 1 THEN << << <<"U">>, <<"d">>, <<"a">> >> >> ELSE <<>> IN
+  CASE ord = 1 -> segs \o grps \o out
+    [] ord = 2 -> Reverse(segs \o grps \o out)
+    [] ord = 3 -> Rot(grps) \o out \o segs
+
+(* version queue: w = <<queued, refused, decider, arrangement>> *)
+NonEmpty(sq) == SelectSeq(sq, LAMBDA t : t # <<>>)
+QueText(x) ==
+  LET q == Que.q[x.w[1]]  b == Que.bad[x.w[2]]  d == Que.dec[x.w[3]] IN
+  Join(NonEmpty(CASE x.w[4] = 1 -> <<q, b, d>> [] x.w[4] = 2 -> <<b, q, d>> [] x.w[4] = 3 -> <<q, d, b>>), "\n")
+
+(* over-long records: a = line, w = <<field, run>>; the run replaces the field, the value of a tag *)
+LongPre(x) ==
+  LET f == VLines[x.a].f  p == x.w[1] IN
+  Join([k \in 1..p |-> IF k < p THEN f[k] ELSE IF TagShaped(f[p]) THEN SubSeq(f[p], 1, 5) ELSE <<>>], "\t")
+  \o Longs[x.w[2]].pre
+LongSuf(x) ==
+  LET f == VLines[x.a].f  p == x.w[1] IN
+  Longs[x.w[2]].suf \o (IF p = Len(f) THEN <<>> ELSE <<"\t">> \o Join(SubSeq(f, p + 1, Len(f)), "\t"))
 
 -----------------------------------------------------------------------------
 (* Law of the specification itself, checked by TLC at every run: the number of overlaps of
@@ -207,6 +274,7 @@ Init ==
           \/ \E p \in 1..Len(LText(a)), r \in DOMAIN LReps : c = St("lmut", a, <<6, p, r>>)
           \/ \E p \in 1..Len(LText(a)) : c = St("lmut", a, <<7, p, 0>>)
           \/ \E p \in 1..(Len(LText(a)) + 1), r \in DOMAIN LReps : c = St("lmut", a, <<8, p, r>>)
+          \/ \E k \in {9, 10}, p \in 1..Len(VLines[a].f), r \in DOMAIN LBytes : c = St("lmut", a, <<k, p, r>>)
   \/ /\ "lenum" \in Layers
      /\ c = St("lenum", 1, <<>>)
   \/ /\ "hdr" \in Layers
@@ -214,6 +282,15 @@ Init ==
            p \in DOMAIN Hdr.pre, s \in DOMAIN Hdr.suf :
           /\ (IF p = 1 THEN TRUE ELSE s = 1)   \* the first prefix / suffix is the empty one (no disjunction: TLC would split it)
           /\ c = St("hdr", 1, <<n, t, v, p, s>>)
+  \/ /\ "nest" \in Layers
+     /\ \E kind \in {1, 2}, n \in 1..3, closed \in {0, 1}, sm \in 0..2, outer \in {0, 1}, ord \in 1..3 :
+          /\ (IF closed = 0 THEN sm >= 1 ELSE TRUE)      \* the last group of a chain lists a segment
+          /\ c = St("nest", 1, <<kind, n, closed, sm, outer, ord>>)
+  \/ /\ "queue" \in Layers
+     /\ \E q \in DOMAIN Que.q, b \in DOMAIN Que.bad, d \in DOMAIN Que.dec, ar \in 1..3 :
+          c = St("queue", 1, <<q, b, d, ar>>)
+  \/ /\ "long" \in Layers
+     /\ \E a \in DOMAIN VLines : \E p \in 1..Len(VLines[a].f), r \in DOMAIN Longs : c = St("long", a, <<p, r>>)
   \/ /\ "hist" \in Layers
      /\ \E d \in DOMAIN Api.docs :
         \E j \in DOMAIN Api.docs[d].lines :
@@ -234,6 +311,8 @@ Next ==
      /\ Len(c.w) - NPos(c.a) < Recs[c.a].ntag
      /\ \E t \in DOMAIN Recs[c.a].tags : c' = [c EXCEPT !.w = Append(@, t)]
 
+  \/ /\ c.lay = "nest" /\ Len(c.w) = 6        \* a document: choose the line and the tail
+     /\ \E j \in DOMAIN NestDoc(c.w), tl \in DOMAIN Nest.tails : c' = [c EXCEPT !.w = @ \o <<j, tl>>]
   \/ /\ c.lay = "xdoc" /\ Len(c.w) < NSlots(c.a)
      /\ \E k \in DOMAIN Tmpl[c.a].slots[Len(c.w) + 1].alts :
           /\ (IF k = 1 \/ Tmpl[c.a].slots[Len(c.w) + 1].ctx = 1 THEN TRUE
@@ -263,5 +342,9 @@ Emit ==
     [] c.lay = "lmut" -> PrintT(<<"CT", VLines[c.a].ver, Enc(LMutText(c))>>)
     [] c.lay = "lenum" -> PrintT(<<"CT", "any", Enc(LEnumText(c))>>)
     [] c.lay = "hdr" -> PrintT(<<"CT", "any", Enc(HdrText(c))>>)
+    [] c.lay = "queue" -> PrintT(<<"CT", "any", Enc(QueText(c))>>)
+    [] c.lay = "long" -> PrintT(<<"CX", VLines[c.a].ver, Enc(LongPre(c)), Enc(<<Longs[c.w[2]].sym>>), Longs[c.w[2]].n, Enc(LongSuf(c))>>)
+    [] c.lay = "nest" -> IF Len(c.w) = 6 THEN PrintT(<<"CG", EncD(NestDoc(c.w)), 0, 0>>)
+                         ELSE PrintT(<<"CG", EncD(NestDoc(c.w)), c.w[7], c.w[8]>>)
     [] c.lay = "hist" -> PrintT(<<"CH", c.a, c.w[1], c.w[2], Enc(HistValue(c)), c.w[5], c.w[6]>>)
 =============================================================================
